@@ -586,3 +586,29 @@ def lazy_accessor_init(ctx, R):
             else:
                 out.append(ctx.inc(R, fi, c, "validate_statepoint argument is not a constant", construct=k))
     return out
+
+
+def rename_call(ctx, fi, c):
+    """(source expr, destination expr, helper or None) if the call renames a path: os.replace / os.rename directly, or a signac helper whose body renames two of its own
+    parameters (the wrapper is treated as the primitive, with the actual arguments mapped)."""
+    if not isinstance(c, ast.Call):
+        return None
+    if ext_name(ctx, fi, c) in ("os.replace", "os.rename") and len(c.args) >= 2:
+        return c.args[0], c.args[1], None
+    for tq in targets_of(ctx, fi, c):
+        g = ctx.prog.funcs.get(tq)
+        if g is None or g.module.is_dep or not g.module.name.startswith("signac") or g is fi:
+            continue
+        params = [p for p in g.params if p not in ("self", "cls")]
+        for x in body_nodes(g):
+            if isinstance(x, ast.Call) and ext_name(ctx, g, x) in ("os.replace", "os.rename") and len(x.args) >= 2 \
+                    and isinstance(x.args[0], ast.Name) and isinstance(x.args[1], ast.Name) and x.args[0].id in params and x.args[1].id in params:
+                i, j = params.index(x.args[0].id), params.index(x.args[1].id)
+                def actual(k):
+                    if k < len(c.args):
+                        return c.args[k]
+                    return kwarg(c, params[k])
+                a, b = actual(i), actual(j)
+                if a is not None and b is not None:
+                    return a, b, g
+    return None
